@@ -33,7 +33,7 @@ def _universe():
                         subkeys=[('cv25519a', {KeyFlags.EncryptCommunications}), ('ecdsa_p256b', {KeyFlags.Sign})])
     # A2: another key with A's identity, created in the very same second, same half
     ka2, _ = K.pgpy_cert('ecdsa_p256b', uid=pgpy.PGPUID.new('Same Name', comment='same comment', email='same@example.org'))
-    return collections.OrderedDict([('A', ka.pubkey), ('B', kb.pubkey), ('C', kc), ('Dpub', kd.pubkey), ('Dsec', kd), ('E', ke), ('A2', ka2.pubkey)]), (ka, kb, kc, kd, ke, ka2)
+    return collections.OrderedDict([('A', ka.pubkey), ('B', kb.pubkey), ('C', kc), ('Dpub', kd.pubkey), ('Dsec', kd), ('E', ke), ('A2', ka2.pubkey), ('Epub', ke.pubkey)]), (ka, kb, kc, kd, ke, ka2)
 
 
 def idents(key):
@@ -95,7 +95,7 @@ class Prop(object):
     def units(self, tier, seed):
         u = []
         # (a) the clusters of keys that share identifiers, each explored to closure (the depth is only a safety cap)
-        for cl in (['A', 'B', 'C'], ['Dpub', 'Dsec', 'A'], ['A', 'B', 'E'], ['A', 'A2', 'B']):
+        for cl in (['A', 'B', 'C'], ['Dpub', 'Dsec', 'A'], ['A', 'B', 'E'], ['A', 'A2', 'B'], ['E', 'Epub', 'Dsec']):
             for i in range(len(cl)):
                 u.append(('bfs', {'first': i, 'blobs': False, 'depth': 14, 'names': cl}))
         # (b) the whole universe, depth-bounded
@@ -279,7 +279,7 @@ class Prop(object):
             except KeyError:
                 probs.append(('loaded-identifier-selects-nothing', '%s %r of a loaded key selects nothing (loaded: %s)' % (kind, ident, names)))
         for n in (case.get('names') or OBJ_NAMES):
-            if n in names or (n == 'Dpub' and 'Dsec' in names) or (n == 'Dsec' and 'Dpub' in names):
+            if n in names or (n == 'Dpub' and 'Dsec' in names) or (n == 'Dsec' and 'Dpub' in names) or (n == 'E' and 'Epub' in names) or (n == 'Epub' and 'E' in names):
                 continue
             for kind, ident in idents(objs[n]).items():
                 if ident in loaded_ids:
@@ -318,6 +318,8 @@ class Prop(object):
                         top = k.parent if k.parent is not None else k
                         if str(top.fingerprint) != str(objs['E'].fingerprint):
                             probs.append(('selection', 'selection by message returned %s' % k.fingerprint))
+                        elif k.is_public:
+                            probs.append(('selection', 'selection by message returned a public key object although the private key that can decrypt it is loaded'))
                 except KeyError:
                     probs.append(('loaded-identifier-selects-nothing', 'selection by a message encrypted to loaded key E selects nothing'))
         r.outcomes['state-ok' if not probs else 'state-violation'] += 1
